@@ -36,21 +36,16 @@ func (w *World) registered(names map[string]bool) map[*types.Func]string {
 		ast.Inspect(fd.Body, func(n ast.Node) bool {
 			switch x := n.(type) {
 			case *ast.CompositeLit:
-				m, ok := w.Info.TypeOf(x).Underlying().(*types.Map)
-				if !ok || !(types.Identical(m.Elem(), filterT) || types.Identical(m.Elem(), funcT)) {
+				tbl, ok := w.registrationTable(x, filterT, funcT)
+				if !ok {
 					return true
 				}
-				for _, el := range x.Elts {
-					kv, ok := el.(*ast.KeyValueExpr)
-					if !ok {
+				for name, obj := range tbl {
+					if !names[name] {
 						continue
 					}
-					tv := w.Info.Types[kv.Key]
-					if tv.Value == nil || tv.Value.Kind() != constant.String || !names[constant.StringVal(tv.Value)] {
-						continue
-					}
-					if f, ok := w.Info.Uses[identOf(kv.Value)].(*types.Func); ok {
-						out[f] = constant.StringVal(tv.Value)
+					if f, ok := obj.(*types.Func); ok {
+						out[f] = name
 					}
 				}
 			case *ast.CaseClause:
@@ -633,4 +628,90 @@ func checkSortComparators(w *World, r *Report) {
 		})
 	}
 	r.Counts["sort.Slice comparators on render paths"] = n
+}
+
+// registrationTable: if cl is a registration table for values of type valT — a map literal
+// map[string]valT, or a slice literal of rows that pair one string constant with one valT value
+// ([]struct{name string; fn valT}{{"escape", e.filterEscape}, …}) — the name → bound object pairs.
+func (w *World) registrationTable(cl *ast.CompositeLit, valTs ...types.Type) (map[string]types.Object, bool) {
+	isVal := func(t types.Type) bool {
+		for _, v := range valTs {
+			if t != nil && types.Identical(t, v) {
+				return true
+			}
+		}
+		return false
+	}
+	objOf := func(e ast.Expr) types.Object {
+		switch v := ast.Unparen(e).(type) {
+		case *ast.SelectorExpr:
+			return w.Info.Uses[v.Sel]
+		case *ast.Ident:
+			return w.Info.Uses[v]
+		}
+		return nil
+	}
+	out := map[string]types.Object{}
+	switch t := w.Info.TypeOf(cl).Underlying().(type) {
+	case *types.Map:
+		if !isVal(t.Elem()) {
+			return nil, false
+		}
+		for _, el := range cl.Elts {
+			kv, ok := el.(*ast.KeyValueExpr)
+			if !ok {
+				continue
+			}
+			tv := w.Info.Types[kv.Key]
+			if tv.Value == nil || tv.Value.Kind() != constant.String {
+				continue
+			}
+			out[constant.StringVal(tv.Value)] = objOf(kv.Value)
+		}
+		return out, true
+	case *types.Slice:
+		st, ok := t.Elem().Underlying().(*types.Struct)
+		if !ok {
+			return nil, false
+		}
+		hasStr, hasVal := false, false
+		for i := 0; i < st.NumFields(); i++ {
+			ft := st.Field(i).Type()
+			if types.Identical(ft.Underlying(), types.Typ[types.String]) {
+				hasStr = true
+			}
+			if isVal(ft) {
+				hasVal = true
+			}
+		}
+		if !hasStr || !hasVal {
+			return nil, false
+		}
+		for _, el := range cl.Elts {
+			row, ok := ast.Unparen(el).(*ast.CompositeLit)
+			if !ok {
+				continue
+			}
+			name := ""
+			var obj types.Object
+			for _, re := range row.Elts {
+				v := re
+				if kv, ok := re.(*ast.KeyValueExpr); ok {
+					v = kv.Value
+				}
+				if tv := w.Info.Types[v]; tv.Value != nil && tv.Value.Kind() == constant.String {
+					name = constant.StringVal(tv.Value)
+				} else if isVal(w.Info.TypeOf(v)) || objOf(v) != nil {
+					if o := objOf(v); o != nil {
+						obj = o
+					}
+				}
+			}
+			if name != "" {
+				out[name] = obj
+			}
+		}
+		return out, true
+	}
+	return nil, false
 }
